@@ -344,8 +344,16 @@ func bmpTermination() []byte {
 
 // bmpUpdate builds an UPDATE announcing (bundle != nil) or withdrawing one NLRI with the repository's serialiser.
 func (p bmpPeer) update(pfx *bnet.Prefix, pid uint32, b *bmpBundle) []byte {
-	v6 := !pfx.Addr().IsIPv4()
-	nlri := &packet.NLRI{Prefix: pfx, PathIdentifier: pid}
+	return p.updateMulti([]*bnet.Prefix{pfx}, []uint32{pid}, b)
+}
+
+// updateMulti is update for several NLRI in one UPDATE (each with its own path identifier).
+func (p bmpPeer) updateMulti(pfxs []*bnet.Prefix, pids []uint32, b *bmpBundle) []byte {
+	v6 := !pfxs[0].Addr().IsIPv4()
+	var nlri *packet.NLRI
+	for i := len(pfxs) - 1; i >= 0; i-- {
+		nlri = &packet.NLRI{Prefix: pfxs[i], PathIdentifier: pids[i], Next: nlri}
+	}
 	u := &packet.BGPUpdate{}
 	if b == nil {
 		if v6 {
@@ -720,6 +728,39 @@ func init() {
 					touched[k][st.Str("stage")] = true
 				}
 				if e := s.send(pd.routeMon(post, pd.update(w.emb.Pfx(bitsOf(pfx)), uint32(st.Int("pid")), br))); e != "" {
+					return sessionProblem(i, a, e)
+				}
+			case "RouteMonMulti":
+				pd := w.peers[st.Str("p")]
+				var keys []struct {
+					Pfx []int `json:"pfx"`
+					PID int   `json:"pid"`
+				}
+				st.Into("keys", &keys)
+				sort.Slice(keys, func(x, y int) bool {
+					if bitsOf(keys[x].Pfx) != bitsOf(keys[y].Pfx) {
+						return bitsOf(keys[x].Pfx) < bitsOf(keys[y].Pfx)
+					}
+					return keys[x].PID < keys[y].PID
+				})
+				var br *bmpBundle
+				if st.Str("b") != "none" {
+					br = &bmpBundle{}
+					st.Into("br", br)
+				}
+				pfxs, pids := []*bnet.Prefix{}, []uint32{}
+				for _, kk := range keys {
+					pfxs = append(pfxs, w.emb.Pfx(bitsOf(kk.Pfx)))
+					pids = append(pids, uint32(kk.PID))
+					k := bmpKey{Peer: st.Str("p"), Pfx: bitsOf(kk.Pfx), PID: uint32(kk.PID)}
+					if st.Bool("listened") {
+						if touched[k] == nil {
+							touched[k] = map[string]bool{}
+						}
+						touched[k][st.Str("stage")] = true
+					}
+				}
+				if e := s.send(pd.routeMon(st.Str("stage") == "post", pd.updateMulti(pfxs, pids, br))); e != "" {
 					return sessionProblem(i, a, e)
 				}
 			case "Other":
